@@ -165,10 +165,10 @@ REGISTRY = {
             "rule": "strace kill sweep: for every write variant (one-shot keyed / by address, streamed with declared size (mapped) and plain, more data than declared, fewer bytes than declared (trimmed temp file; rejected commit), overwrite, address already present, tombstone; thorough: sizes 1 MiB-1/0/+1) the process is SIGKILLed on entry to every mutating system call of every operation, and every data write into the cache is additionally torn at every byte length; on each surviving directory: every regular file under content-v2 hashes (hashlib/libxxhash) to its path, and the normalised tree is one of the model's crash states (Crash.v) for that operation; plus a differential suite of cancelled async writes (a write started, polled once and dropped, then further writes of shorter / equal / longer chunks, commit; Sess.v OAbandon): results, the final tree and the content oracle."},
     "C04": {"flavours": Q3, "suites": [], "step_suites": [("kill", step_c04)],
             "rule": "strace kill sweep over keyed writes, overwrites (multi-byte UTF-8 metadata; after a long history: bucket > 64 KiB), rejected commits and tombstone removals: SIGKILL on entry to every mutating system call, the index append torn at EVERY byte length; on each surviving directory a fresh process looks the key up (previous or new entry, never a mixture; new entry => its data reads back), every other key unchanged, then writes the key again and reads it back; the tree is one of the model's crash states."},
-    "C13": {"flavours": Q3, "suites": [], "step_suites": [("fault", steps.suite_fault), ("retry", steps.suite_fault_retry), ("fsize", steps.suite_fsize)],
+    "C13": {"flavours": Q3, "suites": [], "step_suites": [("fault", steps.suite_fault), ("retry", steps.suite_fault_retry), ("fsize", steps.suite_fsize), ("eintr", steps.suite_eintr)],
             "rule": "strace fault sweep: every system call (open/read/write/mkdir/rename/unlink/link/stat/getdents/...) that names a path inside the cache during write, write_hash, streamed open/chunk/commit, read, read_hash, metadata, copy, remove, remove_hash, list is made to fail once with EIO / ENOSPC / EACCES (thorough: + EMFILE); the call must answer an error or a truthful success (written data reads back, reads return the stored bytes, metadata/list do not silently lose entries), never panic/hang/die; afterwards content files hash to their paths, unnamed entries are unchanged (a temp file left by a failed call is counted, not alarmed on: the property names the content and index areas only); and the same call issued again without the fault succeeds; plus genuine short writes: the process's file-size limit is lowered during a streamed write (one write(2) short, the next EFBIG), the failed write() call is retried after the limit is lifted, and a commit that reports success must read back exactly the acknowledged bytes."},
-    "C15": {"flavours": Q3, "suites": [("layouts", suite_layouts), ("damage_content", suite_damage_content)], "step_suites": [("confine", steps.suite_confine)],
-            "rule": "strace path audit: for hostile / confusable / random Unicode keys a 25-call program covering every kind of operation is traced; every mutating system call must name paths inside the cache root (extractions: or their destination), read-only calls must issue no mutating system call, path components under the cache are never empty, '.', '..' or contain NUL, components under index-v5 are hex, content files are never opened for writing in place, the working directory is untouched; plus differential programs on damaged content (every read-only entry point on entries whose content was flipped / truncated / replaced / removed: the tree afterwards is the model's, i.e. unchanged) and two cache-path layouts."},
+    "C15": {"flavours": Q3, "suites": [("layouts", suite_layouts), ("damage_content", suite_damage_content)], "step_suites": [("confine", steps.suite_confine), ("chdir", steps.suite_chdir)],
+            "rule": "strace path audit: for hostile / confusable / random Unicode keys a 25-call program covering every kind of operation is traced; every mutating system call must name paths inside the cache root (extractions: or their destination), read-only calls must issue no mutating system call, path components under the cache are never empty, '.', '..' or contain NUL, components under index-v5 are hex, content files are never opened for writing in place, the working directory is untouched; plus differential programs on damaged content (every read-only entry point on entries whose content was flipped / truncated / replaced / removed: the tree afterwards is the model's, i.e. unchanged) and two cache-path layouts; extraction whose destination is an existing directory (an error: nothing below it is written), a key that is an absolute path into an existing directory elsewhere, extraction touching exactly its destination; and a relative cache path across a change of working directory (two caches named ./c: the calls on the second leave the first byte-for-byte unchanged)."},
     "C11": {"flavours": Q3, "suites": [("meta", suite_meta), ("commit", suite_commit)],
             "rule": "several writes to one key with fields (data, time incl. 2^128-1, JSON metadata trees, raw bytes, declared size, single/multi-hash integrity) drawn from small pools so that successive records differ in one field or repeat earlier values, via streamed writers and index::insert, read back by metadata/find/list after each; bucket bytes compared byte for byte (explicit times); default time checked against the call's wall-clock window."},
     "C17": {"flavours": Q3, "suites": [("refwrites", suite_refwrites), ("refcache", suite_refcache), ("meta", suite_meta), ("hist", suite_hist)],
@@ -177,8 +177,8 @@ REGISTRY = {
             "rule": "crafted checksum-valid records (odd integrity strings, non-object JSON, missing fields, 200-deep nesting), directories and dangling symlinks at bucket and content paths, declared-size chunkings, buckets with records cut at every byte length / garbage / invalid UTF-8 lines, plus the general and abandonment programs; every call under catch_unwind and a watchdog: any panic or hang of the implementation is a violation whatever the model says."},
     "C02": {"flavours": Q3, "suites": [("roundtrip", suite_roundtrip), ("roundtrip_ok", suite_roundtrip_ok)],
             "rule": "random programs of writes through every entry point (one-shot, streamed with random chunkings incl. empty/single-byte/decreasing, keyed and by address, with/without declared size, five algorithms, small/hostile keys, sizes 0..16 KiB+1 and occasionally 1 MiB-1/0/+1 and 3 MiB) each followed by reads by key, by address, streamed reads and metadata."},
-    "C08": {"flavours": Q3, "suites": [("commit", suite_commit)],
-            "rule": "streamed writers with declared size smaller/equal/larger and declared integrity correct/wrong/other-algorithm/multi-hash, keyed and by address, prior key states absent/present/removed, followed by lookups."},
+    "C08": {"flavours": Q3, "suites": [("commit", suite_commit)], "step_suites": [("eintr", steps.suite_eintr)],
+            "rule": "streamed writers with declared size smaller/equal/larger and declared integrity correct/wrong/other-algorithm/multi-hash, keyed and by address, prior key states absent/present/removed, followed by lookups; plus, with strace, streamed writes with CORRECT declarations in which one write(2) of the data is interrupted (EINTR, re-issued by the standard library): if every writer call answered ok the commit must succeed and the data read back."},
     "C09": {"flavours": Q3, "suites": [("removals", suite_removals), ("layouts", suite_layouts)],
             "rule": "histories mixing writes with remove, remove_hash, remove_fully, clear over small and hostile keys (keys sharing content included), lookups of every known key/address and the listing afterwards."},
     "C14": {"flavours": Q3, "suites": [("abandon", suite_abandon), ("cancel", suite_cancel), ("late_commit", suite_late_commit)],
@@ -195,6 +195,6 @@ REGISTRY = {
             "rule": "exhaustive histories over 2 keys x 2 values x {insert,remove} x {sync,async} up to length 2 (quick) / 3 (thorough) with lookups of both keys after every step, plus random histories of 3..40 ops (index::insert with random options, real writes, removes) over small and hostile keys, lookups via find/metadata/read/list; plus buckets pre-filled with interleaved records of the key and of foreign keys (as if their SHA-1 collided), foreign tombstones after the key's last write included. Plus relist programs: a lookup, then the key's bucket file is deleted (full removal / clear) and re-created by a write whose record has exactly the same length, then the lookup again in the same process."},
     "C06": {"flavours": Q3, "suites": [("damage", suite_damage), ("bitflips", suite_bitflips)],
             "rule": "buckets of 2..6 reference-written records (tombstones, foreign keys) are damaged: one record cut at every byte length, bit flips, garbage / NUL / invalid-UTF-8 / lone-CR lines, destroyed newlines, duplicated fragments; then lookups through sync and async and the listing, a further API insert, and lookups again; plus every single-bit flip of the first 80 bytes (newline, checksum, tab, start of the JSON) of the newest record (quick) / of every byte of it (thorough)."},
-    "C10": {"flavours": Q2, "suites": [("ls", suite_ls), ("damage", suite_damage), ("relist", suite_relist)], "step_suites": [("fault_listing", steps.suite_fault_listing)],
-            "rule": "random histories of 5..60 ops over small and hostile keys followed by metadata of every key and list_sync, every listed entry compared field by field with the model; plus the damaged buckets of C06 (listing vs lookups); plus, with strace, the states a failed call leaves behind: after every single fault (EIO; thorough: ENOSPC, EACCES) of every write / removal / full removal, a fresh process's listing and lookups agree key by key; plus relist programs: list, the key's bucket file deleted (full removal / clear) and re-created with a record of exactly the same length, list again in the same process."},
+    "C10": {"flavours": Q2, "suites": [("ls", suite_ls), ("damage", suite_damage), ("relist", suite_relist), ("crafted", suite_crafted)], "step_suites": [("fault_listing", steps.suite_fault_listing)],
+            "rule": "random histories of 5..60 ops over small and hostile keys followed by metadata of every key and list_sync, every listed entry compared field by field with the model; plus the damaged buckets of C06 (listing vs lookups); plus, with strace, the states a failed call leaves behind: after every single fault (EIO; thorough: ENOSPC, EACCES) of every write / removal / full removal, a fresh process's listing and lookups agree key by key; plus relist programs: list, the key's bucket file deleted (full removal / clear) and re-created with a record of exactly the same length, list again in the same process; plus crafted buckets (a well-hashed newest record that is unusable — integrity that is no digest, fields missing, not an object — after a valid one): listing and lookups must still agree."},
 }
